@@ -53,7 +53,8 @@ fn parse_cfg_match_inner<'a>(
         {
             let item = match parser.parse_item(ForceCollect::No) {
                 Ok(Some(item_ptr)) => item_ptr.into_inner(),
-                Ok(None) => continue,
+                // Not an item, and nothing was consumed: give up instead of asking again forever.
+                Ok(None) => return Err("Expected item inside cfg_match block"),
                 Err(err) => {
                     err.cancel();
                     parser.psess.dcx().reset_err_count();
